@@ -214,6 +214,61 @@ def standin_C12_retract(seed, args):
                      f"of any pool object, 5 lookups", 'failures': failures[:3], 'n_failures': len(failures)}
 
 
+
+# ------------------------------------------------------------------------------------------------ _most_general_ (C05)
+def most_general_case(specs):
+    """specs: list of (binding as {key: value}, stored value); runs the real BinaryOperator._most_general_ on fresh objects"""
+    from entity_query_language.symbolic import BinaryOperator
+    _LIBRARY_IDS[0] = False
+    given = [({k: _mk(v) for k, v in b.items()}, val) for b, val in specs]
+    snapshot = [(dict(b), val) for b, val in given]
+    kept = BinaryOperator._most_general_(iter(given))
+    ids = [id(t[0]) for t in given]
+    # (1) some of the given pairs, each as it was, in the given order, none twice
+    pos = []
+    for k in kept:
+        if id(k[0]) not in ids or k[1] != given[ids.index(id(k[0]))][1]:
+            return {'what': 'most_general', 'specs': specs, 'problem': 'an entry that was not given (or with another value) is returned',
+                    'signature': {'kind': 'not-a-given-entry'}}
+        pos.append(ids.index(id(k[0])))
+    if pos != sorted(set(pos)):
+        return {'what': 'most_general', 'specs': specs, 'problem': 'order changed or an entry returned twice', 'kept': pos,
+                'signature': {'kind': 'order-or-multiplicity'}}
+    if [(dict(b), val) for b, val in given] != snapshot:
+        return {'what': 'most_general', 'specs': specs, 'problem': 'the given entries were modified', 'signature': {'kind': 'modified'}}
+    # (2) every given entry is represented: some kept entry says at most what it says (its items are a subset)
+    for i, (b, _) in enumerate(given):
+        if not any(given[j][0].items() <= b.items() for j in pos):
+            return {'what': 'most_general', 'specs': specs, 'problem': f'entry {i} is represented by no kept entry', 'kept': pos,
+                    'signature': {'kind': 'entry-lost'}}
+    # (3) nothing is said twice: no kept entry is made redundant by another given one (a strictly more general one, or an
+    #     equal one given earlier)
+    for j in pos:
+        for i, (b, _) in enumerate(given):
+            if i != j and (b.items() < given[j][0].items() or (b.items() == given[j][0].items() and i < j)):
+                return {'what': 'most_general', 'specs': specs, 'problem': f'kept entry {j} is redundant given entry {i}', 'kept': pos,
+                        'signature': {'kind': 'redundant-entry-kept'}}
+    return None
+
+
+def standin_C05_most_general(seed, args):
+    """BinaryOperator._most_general_ exhaustively on the real code: every list of up to max_entries entries whose bindings
+    are partial assignments of 2 keys over 2 values (9 bindings), with a truth value each"""
+    max_entries = args.get('max_entries', 3)
+    bindings = [dict(zip((1, 2), vals)) for vals in itertools.product(['a', 'b', None], repeat=2)]
+    bindings = [{k: v for k, v in b.items() if v is not None} for b in bindings]
+    failures, n = [], 0
+    for k in range(0, max_entries + 1):
+        for combo in itertools.product(range(len(bindings)), repeat=k):
+            for vals in itertools.product([False, True], repeat=k):
+                n += 1
+                d = most_general_case([(bindings[i], v) for i, v in zip(combo, vals)])
+                if d is not None and len(failures) < 3:
+                    failures.append(d)
+    return {'evaluations': n, 'exhaustive': True,
+            'scope': f"_most_general_: every list of <= {max_entries} (binding, truth value) entries, bindings = the 9 partial "
+                     f"assignments of 2 keys over 2 values", 'failures': failures, 'n_failures': len(failures)}
+
 # ------------------------------------------------------------------------------------------------ reference-semantics oracle
 def standin_oracle(seed, args):
     """random small queries (generator parameters in args['family']) evaluated by the real engine and by brute force
